@@ -446,7 +446,10 @@ def _c01(prop, tier, seed, jobs, limit):
 def _c09(prop, tier, seed, jobs, limit):
     from .xh import c09x
     extra = run_engine_x(prop, c09x.specs_c09(tier, seed), jobs) if not limit else None
-    return run_hint_family(prop, tier, seed, jobs, limit, extra=extra,
+    # recursive aliases are left out: the cost constant of such a hint is fixed by how deep beartype itself
+    # chooses to recurse, which the hint alone (my cut-off after two unrollings) does not determine
+    cases = [c for c in hint_cases(prop, tier, seed) if 'ARec' not in c[0]]
+    return run_hint_family(prop, tier, seed, jobs, limit, extra=extra, cases=cases,
                            funcs=FUNCS_ENCODED['common'] + ['beartype._check.error._pep.pep484585.errpep484585container',
                                                             'beartype._check.error._pep.pep484585.errpep484585mapping',
                                                             'beartype._check.cls.logic.logcls'])
